@@ -168,6 +168,11 @@ structure Cfg where
   guardDepth : Nat := recursionGuard     -- JANET_RECURSION_GUARD
   jopCall : Nat                          -- JOP_CALL
   threads : Bool                         -- JANET_THREADS (else `janet_unmarshal_abstract_threaded` panics)
+  refChecked : Bool                      -- LB_REFERENCE: `len >= janet_v_count(st->lookup)` is tested before `st->lookup[len]`
+  envRefChecked : Bool                   -- LB_FUNCENV_REF: `index < 0 || index >= janet_v_count(st->lookup_envs)` before `st->lookup_envs[index]`
+  defRefChecked : Bool                   -- LB_FUNCDEF_REF: the same for `st->lookup_defs[index]` / `lookup_defs_done[index]`
+
+def Cfg.refsChecked (C : Cfg) : Bool := C.refChecked && C.envRefChecked && C.defRefChecked
 
 section
 variable (C : Cfg) (b : Array Nat)
@@ -252,6 +257,12 @@ def pushLookup (v : V) : M Unit := modSt fun s => { s with lookup := s.lookup.pu
 
 def expect (ok : Bool) (e : Err) : M Unit := if ok then pure () else fail e
 
+/-- index into one of the reference tables (`st->lookup`, `st->lookup_envs`, `st->lookup_defs`): `inRange` = the index is inside
+    the table; `checked` = the source tests it first (regenerated).  Without the test an out-of-range index is an
+    out-of-bounds read of the table (`oob`, sites 100-102). -/
+def refGuard (checked inRange : Bool) (e : Err) (site : Nat) : M Unit :=
+  if inRange then pure () else if checked then fail e else fun _ => .oob site
+
 def isTyp (v : V) (t : Nat) : Bool :=
   match v, t with
   | .str, 0 => true | .sym _, 1 => true | .fiber _, 2 => true | .func _, 3 => true | .tab, 4 => true | .struct, 5 => true
@@ -272,7 +283,7 @@ def envBody (P : Fns) (d : Nat) : M Unit :=
   peek b C.sites.envLead 5 >>= fun l =>
   if l = lb_funcenv_ref then
     adv 1 >>= fun _ => readint C b >>= fun idx => getSt >>= fun s =>
-    expect (decide (0 ≤ idx) && decide (idx.toNat < s.nenvs)) .badEnvRef
+    refGuard C.envRefChecked (decide (0 ≤ idx) && decide (idx.toNat < s.nenvs)) .badEnvRef 101
   else
     modSt (fun s => { s with nenvs := s.nenvs + 1 }) >>= fun _ =>
     readnat C b >>= fun offset => readnat C b >>= fun length =>
@@ -294,7 +305,7 @@ def defBody (P : Fns) (d : Nat) : M Nat :=
   peek b C.sites.defLead 7 >>= fun l =>
   if l = lb_funcdef_ref then
     adv 1 >>= fun _ => readint C b >>= fun idx => getSt >>= fun s =>
-    expect (decide (0 ≤ idx) && decide (idx.toNat < s.defs.size)) .badDefRef >>= fun _ =>
+    refGuard C.defRefChecked (decide (0 ≤ idx) && decide (idx.toNat < s.defs.size)) .badDefRef 102 >>= fun _ =>
     expect ((s.defs[idx.toNat]?.map (·.done)).getD false) .defBusy >>= fun _ => pure idx.toNat
   else
     getSt >>= fun s0 =>
@@ -465,9 +476,7 @@ def containerBody (P : Fns) (d : Nat) (lead : Nat) : M V :=
     pushLookup .struct >>= fun _ => pure .struct
   else if lead = lb_reference then
     getSt >>= fun s =>
-    match s.lookup[len]? with
-    | some v => pure v
-    | none => fail .badRef
+    refGuard C.refChecked (decide (len < s.lookup.size)) .badRef 100 >>= fun _ => pure (s.lookup[len]?.getD .nil)
   else
     pushLookup .tab >>= fun _ =>
     (if isTableProto lead then P.one (d + 1) >>= fun p => expect (isTyp p 4) .typ else pure ()) >>= fun _ =>
